@@ -148,20 +148,22 @@ func loadMachine(repoDir, harnessDir string, patterns []string) (*machine, error
 	m.execPrefixes = []string{
 		"berty.tech/go-orbit-db", "berty.tech/go-ipfs-log",
 		"errors", "sort", "path", "unicode/utf8", "unicode", "encoding/binary", "bufio", "io", "container/list",
-		"golang.org/x/sync/semaphore", "golang.org/x/sync/errgroup", "strconv", "container/heap", "math", "math/bits", "bytes", "strings", "slices", "cmp",
+		"golang.org/x/sync/semaphore", "golang.org/x/sync/errgroup", "golang.org/x/sync/singleflight", "strconv", "container/heap", "math", "math/bits", "bytes", "strings", "slices", "cmp",
 		"github.com/ipfs/go-datastore", "github.com/ipfs/go-datastore/query", "github.com/ipfs/boxo/path",
 		"github.com/hashicorp/golang-lru", "encoding/base64", "encoding/hex", "net/url", "sync/atomic", "unicode/utf16", "time", "internal/stringslite", "internal/bytealg", "internal/itoa", "maps", "iter",
+		// not used by the unchanged tree; interpreted so that a change which starts using it is decided rather than inconclusive
+		"regexp", "regexp/syntax",
 	}
 	m.initPrefixes = []string{
 		"berty.tech/go-orbit-db", "berty.tech/go-ipfs-log", "errors", "io", "bufio", "encoding/binary",
-		"github.com/ipfs/go-datastore", "context", "path", "golang.org/x/sync/semaphore", "golang.org/x/sync/errgroup", "github.com/ipfs/boxo/path",
+		"github.com/ipfs/go-datastore", "context", "path", "golang.org/x/sync/semaphore", "golang.org/x/sync/errgroup", "golang.org/x/sync/singleflight", "github.com/ipfs/boxo/path",
 		"encoding/base64", "strings", "bytes", "strconv",
 		// package-level tables of the interpreted library packages (an uninitialised table
 		// would silently compute wrong results); package unicode itself is modelled by
 		// intrinsics (its tables are huge)
 		"unicode/utf8", "unicode/utf16", "math/bits", "math", "sort", "container/list", "container/heap",
 		"slices", "cmp", "encoding/hex", "net/url", "time", "github.com/hashicorp/golang-lru", "maps", "iter",
-		"internal/stringslite", "internal/itoa",
+		"internal/stringslite", "internal/itoa", "regexp", "regexp/syntax",
 	}
 	m.sharedInit = map[string]bool{}
 	for _, pth := range []string{"strconv", "unicode/utf8", "unicode/utf16", "math/bits", "math", "encoding/base64", "encoding/hex",
